@@ -171,13 +171,18 @@ def _tailify(stmts, target, lineno):
 
     def assign(v):
         val = v if v is not None else ast.Constant(value=None)
-        return ast.Assign(targets=[_store(target)], value=val, lineno=lineno, col_offset=0)
+        tg = _store(target)
+        if isinstance(tg, ast.Tuple) and isinstance(val, ast.Tuple) and len(tg.elts) == len(val.elts) and not any(isinstance(x, ast.Name) and x.id in {e.id for e in tg.elts if isinstance(e, ast.Name)} for v_ in val.elts[1:] for x in ast.walk(v_)):
+            # a, b = x, y  ->  a = x; b = y   (later values do not read the earlier targets)
+            return [ast.Assign(targets=[t_], value=v_, lineno=lineno, col_offset=0) for t_, v_ in zip(tg.elts, val.elts)]
+        return ast.Assign(targets=[tg], value=val, lineno=lineno, col_offset=0)
 
     def rec(block):
         out = []
         for i, st in enumerate(block):
             if isinstance(st, ast.Return):
-                out.append(assign(st.value))
+                a_ = assign(st.value)
+                out += a_ if isinstance(a_, list) else [a_]
                 return out
             if isinstance(st, ast.Raise):
                 out.append(st)
@@ -193,7 +198,8 @@ def _tailify(stmts, target, lineno):
             if _contains_return(st):
                 return None
             out.append(st)
-        out.append(assign(None))
+        a_ = assign(None)
+        out += a_ if isinstance(a_, list) else [a_]
         return out
 
     return rec(stmts)
@@ -204,7 +210,14 @@ def _store(text):
     for x in ast.walk(n):
         if hasattr(x, "ctx"):
             x.ctx = ast.Load()
-    n.ctx = ast.Store()
+
+    def mark(t):
+        t.ctx = ast.Store()
+        if isinstance(t, (ast.Tuple, ast.List)):
+            for e in t.elts:
+                mark(e)
+
+    mark(n)
     return n
 
 
@@ -686,7 +699,7 @@ def inline_new_helpers(prog):
                     out.append(st)
                     continue
                 fi, mode = t
-                if kind == "assign" and mode != "straight" and len(st.targets) == 1 and isinstance(st.targets[0], (ast.Name, ast.Attribute, ast.Subscript)):
+                if kind == "assign" and mode != "straight" and len(st.targets) == 1 and (isinstance(st.targets[0], (ast.Name, ast.Attribute, ast.Subscript)) or (isinstance(st.targets[0], ast.Tuple) and all(isinstance(e, ast.Name) for e in st.targets[0].elts))):
                     # helper with several returns, all in tail position: each `return e` becomes `target = e`
                     cn = {n.id for n in ast.walk(caller.node) if isinstance(n, ast.Name)} | {a.arg for a in caller.node.args.args}
                     ex = _expand(fi, call, "tail", cn)
